@@ -11,6 +11,7 @@ import (
 	"fmt"
 	"go/token"
 	"go/types"
+	"os"
 	"sort"
 	"strings"
 
@@ -81,6 +82,7 @@ type boundsProver struct {
 	paramMap  map[*ssa.Parameter]*ssa.Parameter
 	callVer   string
 	parent    *boundsProver
+	inNonNeg  map[*ssa.Phi]bool
 	substFrom ssa.Value // while deriving phi facts: this direct comparison operand ...
 	substTo   ssa.Value // ... stands for this phi
 }
@@ -155,8 +157,55 @@ func (bp *boundsProver) phiFacts(blk *ssa.BasicBlock) []lin {
 		for _, f := range common {
 			out = append(out, f)
 		}
+		// a signed counter that only moves one way round the loop stays on that side of where it started
+		// (i := n-1; …; i-- gives i ≤ n-1; the test at the top or bottom bounds the other side)
+		if b, isB := p.Type().Underlying().(*types.Basic); isB && b.Info()&types.IsUnsigned == 0 && len(p.Edges) >= 2 {
+			var inits []ssa.Value
+			dir, mono := 0, true
+			for _, e := range p.Edges {
+				bo, isBin := e.(*ssa.BinOp)
+				step := 0
+				if isBin && (bo.Op == token.ADD || bo.Op == token.SUB) && bo.X == ssa.Value(p) {
+					if k, isC := constInt(bo.Y); isC && k != 0 {
+						step = 1
+						if (k < 0) != (bo.Op == token.SUB) {
+							step = -1
+						}
+					}
+				}
+				switch {
+				case step == 0 && blk.Dominates(blk.Preds[edgeIndex(p, e)]):
+					mono = false // a back edge that is not a unit step
+				case step == 0:
+					inits = append(inits, e)
+				case dir != 0 && dir != step:
+					mono = false
+				default:
+					dir = step
+				}
+			}
+			if mono && dir != 0 && len(inits) == 1 {
+				f := bp.linOf(inits[0], 0)
+				me := newLin(0)
+				me.t[ssa.Value(p)] = 1
+				if dir < 0 {
+					out = append(out, f.add(me, -1)) // init − p ≥ 0
+				} else {
+					out = append(out, me.add(f, -1)) // p − init ≥ 0
+				}
+			}
+		}
 	}
 	return out
+}
+
+func edgeIndex(p *ssa.Phi, e ssa.Value) int {
+	for i, x := range p.Edges {
+		if x == e {
+			return i
+		}
+	}
+	return 0
 }
 
 func isIntegerT(t types.Type) bool {
@@ -530,6 +579,8 @@ func (bp *boundsProver) nonNeg(a any) bool {
 	switch k := a.(type) {
 	case lenKey:
 		return true
+	case fldKey:
+		return fieldNonNeg(k)
 	case ssa.Value:
 		if isUnsignedT(k.Type()) {
 			return true
@@ -538,12 +589,31 @@ func (bp *boundsProver) nonNeg(a any) bool {
 			if sc := c.Call.StaticCallee(); sc != nil && strings.HasPrefix(sc.String(), "math/bits.") {
 				return true
 			}
+			// library lengths and counts
+			if sc := c.Call.StaticCallee(); sc != nil {
+				switch sc.String() {
+				case "(*bytes.Reader).Len", "(*bytes.Buffer).Len", "(*bytes.Buffer).Cap", "(*bytes.Reader).Size", "(*strings.Reader).Len", "(*bufio.Reader).Buffered":
+					return true
+				}
+			}
 		}
 		if p, ok := k.(*ssa.Phi); ok {
 			// counting loop index: starts at a non-negative constant and only grows
 			for _, e := range p.Edges {
 				if c, ok := constInt(e); ok && c >= 0 {
 					continue
+				}
+				if q, isPhi := stripConv(e).(*ssa.Phi); isPhi && q != p && !bp.inNonNeg[q] {
+					// a copy of another counter
+					if bp.inNonNeg == nil {
+						bp.inNonNeg = map[*ssa.Phi]bool{}
+					}
+					bp.inNonNeg[p] = true
+					r := bp.nonNeg(ssa.Value(q))
+					delete(bp.inNonNeg, p)
+					if r {
+						continue
+					}
 				}
 				if b, ok := stripConv(e).(*ssa.BinOp); ok && b.Op == token.ADD {
 					if (stripConv(b.X) == ssa.Value(p)) || (stripConv(b.Y) == ssa.Value(p)) {
@@ -561,6 +631,98 @@ func (bp *boundsProver) nonNeg(a any) bool {
 		}
 	}
 	return false
+}
+
+// fieldNonNeg: an integer field of the receiver's struct is never negative:
+// it is unexported (only its package writes it), starts at the zero value or
+// a non-negative constant, and every store in the package writes a value the
+// prover shows ≥ 0 from the guards at the store, assuming the field itself is
+// ≥ 0 before (induction over the sequence of stores). Unsigned fields hold trivially.
+var fieldNonNegMemo = map[*types.Var]int{} // 1 assumed (in progress), 2 holds, 3 does not
+
+func fieldNonNeg(k fldKey) bool {
+	pt, ok := k.param.Type().Underlying().(*types.Pointer)
+	if !ok {
+		return false
+	}
+	st, ok := pt.Elem().Underlying().(*types.Struct)
+	if !ok || k.field >= st.NumFields() {
+		return false
+	}
+	fv := st.Field(k.field)
+	if isUnsignedT(fv.Type()) {
+		return true
+	}
+	if !isIntegerT(fv.Type()) || fv.Exported() {
+		return false
+	}
+	switch fieldNonNegMemo[fv] {
+	case 1, 2:
+		return true
+	case 3:
+		return false
+	}
+	fieldNonNegMemo[fv] = 1
+	fn := k.param.Parent()
+	pkg := fn.Pkg
+	if pkg == nil && fn.Origin() != nil {
+		pkg = fn.Origin().Pkg
+	}
+	holds := pkg != nil
+	var visit func(f *ssa.Function)
+	seen := map[*ssa.Function]bool{}
+	visit = func(f *ssa.Function) {
+		if f == nil || seen[f] || !holds {
+			return
+		}
+		seen[f] = true
+		for _, b := range f.Blocks {
+			for _, in := range b.Instrs {
+				s, isStore := in.(*ssa.Store)
+				if !isStore {
+					continue
+				}
+				fa, isFA := s.Addr.(*ssa.FieldAddr)
+				if !isFA || structField(fa.X.Type(), fa.Field) != fv {
+					continue
+				}
+				if c, isC := constInt(s.Val); isC {
+					if c < 0 {
+						holds = false
+					}
+					continue
+				}
+				bp := &boundsProver{fn: f}
+				if !bp.prove(bp.linOf(s.Val, 0), bp.factsAt(b), 4) {
+					holds = false
+				}
+			}
+		}
+		for _, a := range f.AnonFuncs {
+			visit(a)
+		}
+	}
+	if pkg != nil {
+		for _, m := range pkg.Members {
+			switch x := m.(type) {
+			case *ssa.Function:
+				visit(x)
+			case *ssa.Type:
+				for _, t := range []types.Type{x.Type(), types.NewPointer(x.Type())} {
+					ms := pkg.Prog.MethodSets.MethodSet(t)
+					for i := 0; i < ms.Len(); i++ {
+						visit(pkg.Prog.MethodValue(ms.At(i)))
+					}
+				}
+			}
+		}
+	}
+	if holds {
+		fieldNonNegMemo[fv] = 2
+	} else {
+		fieldNonNegMemo[fv] = 3
+	}
+	return holds
 }
 
 // facts: linear forms known to be >= 0 at block b (from dominating branch edges).
@@ -688,6 +850,9 @@ func (bp *boundsProver) prove(g lin, facts []lin, depth int) bool {
 	return false
 }
 
+// negative indices and lower slice bounds panic as well: a signed index needs a proof of idx ≥ 0 (JAMVERIF_NONEG=1 turns the goal off for comparison)
+var checkNegIdx = os.Getenv("JAMVERIF_NONEG") == ""
+
 type boundsSite struct {
 	in   ssa.Instruction
 	desc string
@@ -711,6 +876,9 @@ func checkBounds(fn *ssa.Function) []boundsSite {
 				g := l.add(bp.linOf(x.Index, 0), -1)
 				g.c--
 				goals = append(goals, g)
+				if checkNegIdx && !isUnsignedT(x.Index.Type()) {
+					goals = append(goals, bp.linOf(x.Index, 0))
+				}
 				desc = exprStr(x.X, shapeOpts) + "[" + exprStr(x.Index, shapeOpts) + "]"
 			case *ssa.Index:
 				l := bp.lenOfBase(x.X, 0)
@@ -737,6 +905,9 @@ func checkBounds(fn *ssa.Function) []boundsSite {
 				} else if x.Low != nil {
 					goals = append(goals, l.add(bp.linOf(x.Low, 0), -1))
 				}
+				if checkNegIdx && x.Low != nil && !isUnsignedT(x.Low.Type()) {
+					goals = append(goals, bp.linOf(x.Low, 0))
+				}
 				if x.Max != nil {
 					continue
 				}
@@ -753,8 +924,16 @@ func checkBounds(fn *ssa.Function) []boundsSite {
 			}
 			ok := true
 			gs := ""
+			// "bytes consumed" results of module parsers never exceed the slice they parsed (summary proven in the callee)
+			siteFacts := facts
+			for _, op := range in.Operands(nil) {
+				if *op != nil && isIntegerT((*op).Type()) {
+					siteFacts = append(siteFacts[:len(siteFacts):len(siteFacts)], consumedFacts(bp, *op)...)
+					siteFacts = append(siteFacts, libraryFacts(bp, *op)...)
+				}
+			}
 			for _, g := range goals {
-				if !bp.prove(g, facts, 4) {
+				if !bp.prove(g, siteFacts, 4) {
 					ok = false
 					gs = g.String()
 					break
@@ -763,5 +942,43 @@ func checkBounds(fn *ssa.Function) []boundsSite {
 			out = append(out, boundsSite{in: in, desc: desc, ok: ok, goal: gs})
 		}
 	}
+	return out
+}
+
+// libraryFacts: bounds the standard library guarantees for values occurring in v:
+// bytes.NewReader(x).Len() ≤ len(x) (the unread part of x), likewise Size().
+func libraryFacts(bp *boundsProver, v ssa.Value) []lin {
+	var out []lin
+	seen := map[ssa.Value]bool{}
+	var walk func(ssa.Value, int)
+	walk = func(v ssa.Value, d int) {
+		if v == nil || seen[v] || d > 8 {
+			return
+		}
+		seen[v] = true
+		switch x := v.(type) {
+		case *ssa.BinOp:
+			walk(x.X, d+1)
+			walk(x.Y, d+1)
+		case *ssa.Convert:
+			walk(x.X, d+1)
+		case *ssa.ChangeType:
+			walk(x.X, d+1)
+		case *ssa.Call:
+			sc := x.Call.StaticCallee()
+			if sc == nil || len(x.Call.Args) != 1 {
+				return
+			}
+			if s := sc.String(); s != "(*bytes.Reader).Len" && s != "(*bytes.Reader).Size" {
+				return
+			}
+			mk, ok := x.Call.Args[0].(*ssa.Call)
+			if !ok || mk.Call.StaticCallee() == nil || mk.Call.StaticCallee().String() != "bytes.NewReader" {
+				return
+			}
+			out = append(out, bp.lenOf(mk.Call.Args[0], 0).add(bp.linOf(x, 0), -1))
+		}
+	}
+	walk(v, 0)
 	return out
 }
